@@ -142,6 +142,8 @@ def call(entry, payload, ver, valid_refs=None):
         return core.guarded(stix2.parse, payload, allow_custom=False, version=ver)
     if entry == "parse-text":
         return core.guarded(stix2.parse, json.dumps(payload), allow_custom=False)
+    if entry == "parse-text-version":
+        return core.guarded(stix2.parse, json.dumps(payload), allow_custom=False, version=ver)
     if entry == "parse-file":
         return core.guarded(stix2.parse, io.StringIO(json.dumps(payload)), allow_custom=False)
     if entry == "parse_observable":
@@ -483,7 +485,7 @@ junk_json = st.recursive(junk_leaf, lambda ch: st.one_of(st.lists(ch, max_size=3
 
 PRE_CLEAN_SLOTS = ["extensions", "type", "spec_version", "id", "objects", "custom_properties", "definition_type", "definition", "granular_markings",
                    "object_marking_refs", "created", "modified"]
-ENTRIES = ["parse", "parse-custom", "parse-version", "parse-text", "constructor", "memory-add", "parse-file"]
+ENTRIES = ["parse", "parse-custom", "parse-version", "parse-text", "constructor", "memory-add", "parse-file", "parse-text-version"]
 OPTS = {"ts_max_digits": 6, "selectors": "safe", "max_optional": 8, "plain_strings": True}
 
 
@@ -734,6 +736,16 @@ def run(ctx):
         gate = isinstance(junk, dict) and isinstance(junk.get("type"), str) and junk.get("type") in M.get("2.1").all_known_types()
         ctx.note(case, gate, ["arbitrary", "entry:" + entry, "first-gate:%s" % gate])
         ctx.handle(case, fails)
+
+    # documents that are no objects but answer "'type' in value" with yes (text mentioning it, arrays holding it): every gate that asks
+    # for the type before asking whether there is an object (finite)
+    ctx.collect_only = True
+    for junk in ("type", "xtypex", "spec_version type", ["type"], ["type", "indicator"], ["type", "spec_version"], [["type"]], "id type objects",
+                 ["type", "id", "objects", "spec_version"], {"type": ["identity"]}, {"type": {"type": "identity"}}):
+        for entry in ENTRIES + ["parse_observable"]:
+            for ver in ("2.0", "2.1"):
+                body_junk((junk, entry, ver))
+    ctx.collect_only = False
 
     typed_junk = st.builds(lambda t, j: dict(j, type=t) if isinstance(j, dict) else {"type": t, "x": j},
                            st.sampled_from(M.get("2.1").all_known_types() + ["x-never-registered"]), junk_json)
